@@ -131,6 +131,17 @@ struct TreeShape {
 std::vector<int> seed_revealed_nodes(const TreeShape& t, const std::vector<uint16_t>& hide);
 std::vector<int> merkle_revealed_nodes(const TreeShape& t, const std::vector<uint16_t>& missing);
 
+// signature layout (for field-aware wire faults): fields in order, with the number of padding bits at the
+// end of the field that a canonical encoding leaves zero
+struct Field {
+  std::string name;
+  size_t off, len;
+  int padbits;
+};
+Challenge kkw_expand_challenge(const Params& p, const bytes& sigH);
+bool zkb_parse_challenge(const Params& p, const bytes& sig, std::vector<uint8_t>& e); // false if non-canonical / short
+std::vector<Field> sig_layout(const Params& p, const bytes& sig);                      // empty if not parsable
+
 // key helpers
 struct Key {
   int param;
